@@ -232,8 +232,11 @@ func (l *lane) runHist(tc *tcase, c *acase, out emitter, ht *histT) {
 		switch {
 		case state3 == "returned" && res3.Ok:
 			r.Sentinel = true
-		case state3 == "returned" && res3.Ms >= float64(deadline*16)-3 && l.cli != nil && !l.cli.exited() && !l.cli.spinning(100*time.Millisecond):
-			r.Outcome, r.Detail = "stall", "client sentinel timed out three times with growing deadlines; the child is alive and idle"
+		case state3 == "returned" && l.cli != nil && !l.cli.exited() && !l.cli.spinning(100*time.Millisecond):
+			// returned without a measurement, at its deadline or before it (the SCION call reports "no
+			// measurement" when its attempts ran out of time): the child answered, is alive and idle -
+			// nothing was terminated and no loop stopped; the exchange itself is not C08's subject
+			r.Outcome, r.Detail = "stall", "client sentinel returned without a measurement three times with growing deadlines ("+res3.Err+"); the child is alive and idle"
 		case state3 == "child_died" || state3 == "hang":
 			r.Outcome, r.Sig, r.Detail = state3, sig3, detail3
 		}
